@@ -194,7 +194,67 @@ def fall_cases(tier):
         out.append(("fall", bw, dur, a, "sign-change", "det"))
     for eom_bw, dur, a in itertools.product([20.0, 40.0], [16, 52, 100], [1.0, 20.0]):
         out.append(("fall-eom", 8.0, eom_bw, dur, a))
+    # weak or zero amplitude with a large detuning (the detuning decides), on fast and slow EOMs
+    for eom_bw, dur, (a, det) in itertools.product([5.0, 20.0, 40.0], [16, 52, 100], [(0.2, -20.0), (0.0, -15.0), (0.5, 5.0), (1.0, 20.0), (20.0, -0.5)]):
+        out.append(("fall-eom", 8.0, eom_bw, dur, a, det))
+    # both waveforms of one pulse non-trivial: the slower of the two tails decides (amplitude ending smoothly at zero with a
+    # detuning that ends far from zero, and the other way round; shapes whose start and end differ)
+    for bw, dur, a in itertools.product(bws, [52, 100, 401] + ([1000, 4000] if tier == "thorough" else [1000]), [1.0, 20.0]):
+        for an, dn, sign in itertools.product(FALL2_AMP, FALL2_DET, (1, -1)):
+            out.append(("fall2", bw, dur, a, an, dn, sign))
     return out
+
+
+FALL2_AMP = ("blackman", "kaiser", "ramp-down", "early-step", "constant", "late-step")
+FALL2_DET = ("ramp-up", "ramp-down", "late-step", "early-step", "zero", "blackman")
+
+
+def wf_specs2(dur, a):
+    h = max(1, dur // 2)
+    d = wf_specs(dur, a)
+    d["late-step"] = ["+", ["C", h, 0.0], ["C", dur - h, a]]
+    d["early-step"] = ["+", ["C", h, a], ["C", dur - h, 0.0]]
+    d["zero"] = ["C", dur, 0.0]
+    return d
+
+
+def check_fall2(bw, dur, a, an, dn, sign):
+    """One pulse, both waveforms shaped: after the pulse's fall time neither output may still be present."""
+    from pulser import Pulse
+
+    ch = chan(bw)
+    try:
+        awf = make_wf(wf_specs2(dur, a)[an])
+        dwf = make_wf(wf_specs2(dur, sign * a)[dn])
+    except Exception:
+        return [("@unbuildable", "")]
+    xa = np.asarray(awf.samples.as_array(detach=True), dtype=float)
+    xd = np.asarray(dwf.samples.as_array(detach=True), dtype=float)
+    if len(xa) != len(xd) or np.any(xa < 0):
+        return [("@unbuildable", "")]
+    D = len(xa)
+    pulse = Pulse(awf, dwf, 0.0)
+    try:
+        fall = pulse.fall_time(ch)
+    except Exception as e:
+        return [(f"C14:fall-time-of-a-valid-pulse-raises:{type(e).__name__}", f"bw {bw}, duration {D}, amp {an}, det {dn}: {e}"[:250])]
+    rise = ch.rise_time
+    pad = 6 * rise + 50
+    out = []
+    for role, x, nm in (("amp", xa, an), ("det", xd, dn)):
+        peak = float(np.max(np.abs(x)))
+        if peak == 0.0:
+            continue
+        y = ref_output(x, bw, pad)
+        bound = max(0.01, 0.006 * peak)
+        tail = np.abs(y[pad + D + fall - rise:])
+        if len(tail) and tail.max() >= bound:
+            out.append((f"C14:fall-time-too-short:two-waveforms:{role}:{nm}", f"bw {bw} MHz (rise {rise}), duration {D}, amplitude {an} / detuning {dn} "
+                        f"(sign {sign}, scale {a}): {role} output {tail.max():.5g} still present {fall} ns after the end (bound {bound:.5g})"))
+    # the fall time is not longer than the slower of the two waveforms needs on its own (no over-wait beyond 2 x rise)
+    if fall > 2 * rise:
+        out.append(("C14:fall-time-beyond-two-rise-times", f"bw {bw}, duration {D}, amp {an}, det {dn}: fall {fall} > 2 x rise {rise}"))
+    return out + [("@fall2", "")]
 
 
 def check_fall(bw, dur, a, name, role):
@@ -250,21 +310,27 @@ def check_fall(bw, dur, a, name, role):
     return out + [("@fall", "")]
 
 
-def check_fall_eom(bw, eom_bw, dur, a):
+def check_fall_eom(bw, eom_bw, dur, a, det=0.0):
+    """A square pulse played in EOM mode: after its EOM fall time neither the amplitude nor the detuning output (EOM bandwidth)
+    is still present - also when the amplitude is weak or zero and the detuning is what takes long to settle."""
     from pulser import Pulse
 
     ch = chan(bw, eom_bw)
-    p = Pulse.ConstantPulse(dur, a, 0.0, 0.0)
+    p = Pulse.ConstantPulse(dur, a, det, 0.0)
     fall = p.fall_time(ch, in_eom_mode=True)
     rise = ch.eom_config.rise_time
-    x = np.full(dur, a)
     pad = 6 * rise + 50
-    y = ref_output(x, eom_bw, pad)
-    bound = max(0.01, 0.006 * a)
-    tail = np.abs(y[pad + dur + fall - rise:])
-    if len(tail) and tail.max() >= bound:
-        return [("C14:fall-time-too-short:eom", f"EOM bw {eom_bw} (rise {rise}), duration {dur}, amp {a}: output {tail.max():.5g} after {fall} ns (bound {bound:.5g})")]
-    return [("@fall-eom", "")]
+    out = []
+    for role, v in (("amp", a), ("det", det)):
+        if v == 0.0:
+            continue
+        y = ref_output(np.full(dur, float(v)), eom_bw, pad)
+        bound = max(0.01, 0.006 * abs(v))
+        tail = np.abs(y[pad + dur + fall - rise:])
+        if len(tail) and tail.max() >= bound:
+            out.append((f"C14:fall-time-too-short:eom{'' if role == 'amp' else ':detuning'}", f"EOM bw {eom_bw} (rise {rise}), duration {dur}, amp {a}, det {det}: "
+                        f"{role} output {tail.max():.5g} after {fall} ns (bound {bound:.5g})"))
+    return out + [("@fall-eom", "")]
 
 
 def worker(case):
@@ -272,7 +338,7 @@ def worker(case):
         warnings.simplefilter("ignore")
         k = case[0]
         fn = {"axioms": check_axioms, "tone": check_tone, "tone-modulate": check_tone_modulate, "fall": check_fall,
-              "fall-eom": check_fall_eom}.get(k)
+              "fall-eom": check_fall_eom, "fall2": check_fall2}.get(k)
         if fn is None:
             return []  # unknown kind: the vacuity guard of gridx.run reports it
         r = fn(*case[1:])
